@@ -392,3 +392,6 @@ def fpa_post(ctx, st, result):
 
 UNITS.append(Unit("C06", "jsonargparse._actions:_find_parent_action_and_subcommand", fpa_setup, fpa_post, fa_raises,
                   trusted=["_find_action_and_subcommand by contract (its own unit)"]))
+
+from contracts.apply_actions import apply_actions_unit  # noqa: E402
+UNITS.append(apply_actions_unit("C06"))
